@@ -113,6 +113,38 @@ def symbolic_checks(run, W, npairs):
     return res
 
 
+def count_checks(run):
+    """HbCount (counter abstraction of the table bookkeeping, every table size): IndInv is inductive and implies that an
+    EMPTY byte always exists and capacity() >= len().  Three Apalache obligations; a failure is a defect of the specification."""
+    out = []
+    for name, args in (("CountInit", ["--init=Init", "--inv=IndInv", "--length=0"]),
+                       ("CountStep", ["--init=IndInit", "--inv=IndInv", "--length=1"]),
+                       ("CountCons", ["--init=IndInit", "--inv=Consequences", "--length=0"])):
+        d = os.path.join(vlib.WORK, "apa_%s_%d" % (name, os.getpid()))
+        shutil.rmtree(d, ignore_errors=True)
+        os.makedirs(d)
+        shutil.copy(os.path.join(vlib.SPEC, "HbCount.tla"), d)
+        t0 = time.time()
+        p = subprocess.run(["timeout", "600", "apalache-mc", "check", "--next=Next", "--out-dir=" + os.path.join(d, "out")] + args + ["HbCount.tla"],
+                           cwd=d, stdout=subprocess.PIPE, stderr=subprocess.STDOUT, text=True)
+        ok = "The outcome is: NoError" in p.stdout
+        r = {"name": name, "ok": ok, "wall_s": round(time.time() - t0, 1), "violated": "The outcome is: Error" in p.stdout}
+        if not ok:
+            r["out"] = p.stdout[-2000:]
+        shutil.rmtree(d, ignore_errors=True)
+        vlib.log("  apalache %-10s (all table sizes) %s in %.1fs" % (name, "NoError" if ok else "FAILED", r["wall_s"]))
+        if not ok:
+            if r["violated"]:
+                run.violation("HbCount: the bookkeeping invariant is not inductive (%s)" % name, {"kind": "apalache", "name": name}, signature="apalache:" + name)
+            else:
+                run.tool_error("Apalache failed: %s" % r.get("out"))
+        out.append(r)
+    run.extra["counter_abstraction_unbounded"] = {"obligations": len(out), "discharged": sum(1 for r in out if r["ok"]),
+        "statement": "for every bucket count: items + deleted + growth_left = capacity(buckets) is inductive over the raw steps and implies "
+                     "an EMPTY control byte exists (probe termination), at least buckets/8 of them for buckets >= 8, and capacity() >= len()"}
+    return out
+
+
 def split_records(path):
     small, big = [], []
     with open(path) as f:
